@@ -36,6 +36,7 @@ type c01aType struct {
 	pool  []string // enum names
 	width int      // bytes per row of a fixed-width leaf (0: not applicable)
 	odd   bool     // a spelling the class deliberately leaves out although the code accepts it: not compared
+	defs  []c01aDef // enum definitions, as generated
 }
 
 func c01aFix(name string, w int) c01aType {
@@ -73,7 +74,7 @@ func c01aEnum(w int, sp int, defs []c01aDef) c01aType {
 		pool = append(pool, d.name)
 	}
 	str := base + "(" + strings.Join(parts, ","+pad) + ")"
-	return c01aType{str: str, sx: sx("enum", hx([]byte(str)), strconv.Itoa(w), sx(sxs...)), pool: pool, width: w}
+	return c01aType{str: str, sx: sx("enum", hx([]byte(str)), strconv.Itoa(w), sx(sxs...)), pool: pool, width: w, defs: defs}
 }
 
 var c01aZones = []string{"UTC", "Europe/Moscow", "Asia/Kolkata", "America/New_York", "Etc/GMT+5", "Nowhere/Land", "", "Local", "utc"}
@@ -397,9 +398,69 @@ func c01aBlockable(t c01aType) bool {
 	return true
 }
 
+// c01aEnumJudge: the names of an enum definition, as generated, against the inferring enum column: every name can be
+// appended and encodes to its number, and the numbers decode to exactly the names (spaces inside the quotes belong to the name)
+func c01aEnumJudge(t c01aType) (o string) {
+	defer func() {
+		if p := recover(); p != nil {
+			o = fmt.Sprintf("FAIL:enum names: panic: %v", p)
+		}
+	}()
+	var e proto.ColEnum
+	if err := e.Infer(proto.ColumnType(t.str)); err != nil {
+		return "FAIL:enum names: the definition is not accepted: " + c18Clean(err.Error())
+	}
+	var want []byte
+	for _, d := range t.defs {
+		e.Append(d.name)
+		want = append(want, byte(d.val))
+		if t.width == 2 {
+			want = append(want, byte(d.val>>8))
+		}
+	}
+	if err := e.Prepare(); err != nil {
+		return "FAIL:enum names: a column holding the names of its own definition cannot be prepared: " + c18Clean(err.Error())
+	}
+	var b proto.Buffer
+	e.EncodeColumn(&b)
+	if !bytes.Equal(b.Buf, want) {
+		return fmt.Sprintf("FAIL:enum names: the names encode to %x, their numbers are %x", b.Buf, want)
+	}
+	var d proto.ColEnum
+	if err := d.Infer(proto.ColumnType(t.str)); err != nil {
+		return "FAIL:enum names: infer: " + c18Clean(err.Error())
+	}
+	if err := d.DecodeColumn(proto.NewReader(bytes.NewReader(want)), len(t.defs)); err != nil {
+		return "FAIL:enum names: decode: " + c18Clean(err.Error())
+	}
+	if d.Rows() != len(t.defs) {
+		return fmt.Sprintf("FAIL:enum names: %d rows decoded of %d", d.Rows(), len(t.defs))
+	}
+	for i, def := range t.defs {
+		if got := d.Row(i); got != def.name {
+			return fmt.Sprintf("FAIL:enum names: number %d decodes to the name %s, the definition says %s", def.val, c18Clean(strconv.Quote(got)), c18Clean(strconv.Quote(def.name)))
+		}
+	}
+	return "ok"
+}
+
 func runC01Auto(h *H) {
 	leaves := c01aLeaves(h)
 	var inferable []c01aType
+	for _, t := range leaves {
+		if len(t.defs) > 0 && !t.odd {
+			good := true
+			for _, d := range t.defs {
+				for _, bad := range c01aEnumBad {
+					good = good && d.name != bad
+				}
+			}
+			if good {
+				h.Emit("enumnames "+hx([]byte(t.str)), "-", c01aEnumJudge(t))
+				h.Stat("c01auto.enumnames")
+			}
+		}
+	}
 
 	// 1. the class against the code: leaves, then nestings to depth 4
 	all := append([]c01aType{}, leaves...)
